@@ -6,7 +6,7 @@
 From hls Require Import Base Float Lex Kinds Types Tags Line Keys Media.
 From hls.Generated Require Import Tables.
 From hls Require Import Master.
-From hls.Proofs Require Import Build Parse MediaProps Lexical Assembly MasterOrder Values MediaText C03Items ParsedBuilt Restyle.
+From hls.Proofs Require Import Build Parse MediaProps Lexical Assembly MasterOrder Values MediaText C03Items ParsedBuilt Restyle FloatRound DurationText.
 Open Scope N_scope.
 
 (* L2: the tokenizer returns exactly the rendered (name, value) pairs, whatever the padding
@@ -41,6 +41,13 @@ Check C01_dispatch_flags :
   /\ classify pfx_ExtXIndependentSegments = K_ExtXIndependentSegments
   /\ classify pfx_ExtXDiscontinuity = K_ExtXDiscontinuity.
 Print Assumptions C01_dispatch_flags.
+
+(* names that only look like known tags, over the whole regenerated dispatch chain: a value tag's name without its colon
+   (a bare `#EXT-X-KEY`) and a longer name (`#EXT-X-KEYS:1`) are unknown tags *)
+Theorem C01_near_miss_names : name_without_colon_unknown = true /\ longer_name_unknown = true.
+Proof. split; [exact bare_names_unknown | exact longer_names_unknown]. Qed.
+Check C01_near_miss_names : name_without_colon_unknown = true /\ longer_name_unknown = true.
+Print Assumptions C01_near_miss_names.
 
 Theorem C01_flag_extension_unknown : forall c rest,
   classify (pfx_ExtXEndList ++ c :: rest) = K_Unknown
@@ -112,6 +119,30 @@ Check C01_styled_text : forall p raws t r r0, wf_media p = true -> built_ok p ra
   tag t pfx_ExtM3u = Ok r -> tag (print_media p) pfx_ExtM3u = Ok r0 -> restyle_media (clean_lines r) (clean_lines r0) ->
   parse_media t = Ok (reread p).
 Print Assumptions C01_styled_text.
+
+(* durations "to the nanosecond": a plain decimal with at most nine fractional digits below 2^20 s (12 days) is read,
+   through f64 and Duration::try_from_secs_f64, to exactly the nanosecond count the text denotes — for every such text,
+   not a sample (the rounding error of the f64 is below 2^-34 s and the nanosecond rounding absorbs it) *)
+Theorem C01_duration_exact :
+  (forall c a b, forallb is_digit (c :: a) = true -> forallb is_digit b = true -> (List.length b <= 9)%nat ->
+     let m := zval ((c :: a) ++ b) 0 in let fc := Z.of_nat (List.length b) in
+     (m < 1048576 * 10 ^ fc)%Z ->
+     parse_duration ((c :: a) ++ 46%N :: b) = Ok (Z.to_N (m * 10 ^ (9 - fc))))
+  /\ (forall c a, forallb is_digit (c :: a) = true ->
+     let m := zval (c :: a) 0 in (m < 1048576)%Z -> parse_duration (c :: a) = Ok (Z.to_N (m * 1000000000))).
+Proof. exact (conj parse_duration_plain parse_duration_int). Qed.
+Check C01_duration_exact :
+  (forall c a b, forallb is_digit (c :: a) = true -> forallb is_digit b = true -> (List.length b <= 9)%nat ->
+     let m := zval ((c :: a) ++ b) 0 in let fc := Z.of_nat (List.length b) in
+     (m < 1048576 * 10 ^ fc)%Z ->
+     parse_duration ((c :: a) ++ 46%N :: b) = Ok (Z.to_N (m * 10 ^ (9 - fc))))
+  /\ (forall c a, forallb is_digit (c :: a) = true ->
+     let m := zval (c :: a) 0 in (m < 1048576)%Z -> parse_duration (c :: a) = Ok (Z.to_N (m * 1000000000))).
+Print Assumptions C01_duration_exact.
+Example C01_duration_example :
+  parse_duration (lit "9.009") = Ok 9009000000 /\ parse_duration (lit "0.499999999") = Ok 499999999
+  /\ parse_duration (lit "1048575.999999999") = Ok 1048575999999999 /\ zval (lit "9009") 0 = 9009%Z.
+Proof. vm_compute. repeat split. Qed.
 
 Example C01_example :
   attr_pairs (lit " URI = ""a,b=c"" ,IV=0x12,  X=""q""") = [(lit "URI", lit """a,b=c"""); (lit "IV", lit "0x12"); (lit "X", lit """q""")]
